@@ -105,6 +105,7 @@ func (e *Explorer) Explore(sc *Scenario, shardSubtrees bool) bool {
 	complete := true
 	ord := 0
 	var rec func(prefix []int, expect [][]string, devs int)
+	var prevDevs []string
 	e.abandonedHere = 0
 	rec = func(prefix []int, expect [][]string, devs int) {
 		if e.expired() || e.abandonedHere > maxAbandonedPerScenario {
@@ -128,7 +129,7 @@ func (e *Explorer) Explore(sc *Scenario, shardSubtrees bool) bool {
 		}
 		for i := len(prefix); i < len(x.Points); i++ {
 			for alt := 1; alt < len(x.Points[i].Names); alt++ {
-				if sc.Opt.DevOK != nil && !sc.Opt.DevOK(x.Points[i].Names[alt], devs) {
+				if sc.Opt.DevOK != nil && !sc.Opt.DevOK(x.Points[i].Names[alt], prevDevs) {
 					continue
 				}
 				if devs == 0 && shardSubtrees && e.Of > 0 {
@@ -138,7 +139,9 @@ func (e *Explorer) Explore(sc *Scenario, shardSubtrees bool) bool {
 					}
 				}
 				np := append(append([]int{}, choices[:i]...), alt)
+				prevDevs = append(prevDevs, x.Points[i].Names[alt])
 				rec(np, names[:i+1], devs+1)
+				prevDevs = prevDevs[:len(prevDevs)-1]
 				if e.expired() || e.abandonedHere > maxAbandonedPerScenario {
 					complete = false
 					return
